@@ -240,6 +240,7 @@ class Exec:
         self.timeout_ms = timeout_ms
         self.cvc5_decided = 0
         self.deadline = None
+        self.const_cache = {}
         self.nfresh = 0
         self.ncell = 0
         self.queries = 0
@@ -304,10 +305,16 @@ class Exec:
         self.impl_info[b.impl_at] = info
         return info
 
-    def resolve(self, callee):
-        """call-site callee text -> Body or None"""
+    def resolve(self, callee, crate=None):
+        """call-site callee text -> Body or None; `crate` = crate of the calling body (free functions print without their module
+        path, so two crates of a merged dump can both define `before`: the caller's own crate wins)"""
+        if crate is not None and (crate + "::" + callee) in self.bodies:
+            return self.bodies[crate + "::" + callee]
         if callee in self.bodies:
-            return self.bodies[callee]
+            b = self.bodies[callee]
+            if crate is None or getattr(b, "crate", crate) == crate or not any(
+                    getattr(x, "crate", None) == crate and x.name == b.name for x in self.by_last.get(_path_segments(callee)[-1] if _path_segments(callee) else callee, [])):
+                return b
         c = callee.strip()
         # `<A as Trait>::method` / `<A as Trait<B>>::method`
         m = re.match(r"^<(.*) as (.*)>::([A-Za-z_0-9]+)(::<.*>)?$", c, re.S)
@@ -335,6 +342,9 @@ class Exec:
         cands = self.by_last.get(meth, [])
         if len(segs) == 1:
             ex = [b for b in cands if b.name == meth or b.name.endswith("::" + meth) and b.impl_at is None]
+            if len(ex) > 1 and crate is not None:
+                same = [b for b in ex if getattr(b, "crate", None) == crate]
+                ex = same or ex
             if len(ex) == 1:
                 return ex[0]
             ex2 = [b for b in ex if b.name == meth]
@@ -459,6 +469,32 @@ class Exec:
             yield st.fork()
         finally:
             self.solver.pop()
+
+    def enum_values(self, st, e, limit=64):
+        """generator of (forked state, k) for every feasible concrete value k of Int expression e on this path"""
+        c = self.concrete(e)
+        if c is not None:
+            yield st, c
+            return
+        seen = []
+        while True:
+            self.solver.push()
+            try:
+                for k in seen:
+                    self.solver.add(e != k)
+                r = self.check()
+                if r != z3.sat:
+                    if r == z3.unknown:
+                        raise MirUnsupported("solver gave up while enumerating values of %s" % e)
+                    return
+                k = self.solver.model().eval(e, model_completion=True).as_long()
+            finally:
+                self.solver.pop()
+            seen.append(k)
+            if len(seen) > limit:
+                raise MirUnsupported("more than %d feasible values for %s" % (limit, e))
+            for st2 in self.branch(st, e == k):
+                yield st2, k
 
     def must(self, cond):
         """True iff `cond` holds on every model of the current path"""
@@ -663,11 +699,22 @@ class Exec:
         # named constant or promoted: evaluate its MIR body
         b = self.bodies.get(c) or self._resolve_const(c)
         if b is not None and b.kind in ("const", "promoted", "static"):
+            if b.name in self.const_cache:
+                return self.const_cache[b.name]
             outs = [o for o in self.run_body(st, b, [])]
             rets = [o for o in outs if o.kind == "return"]
             if len(rets) != 1:
                 raise MirUnsupported("const body %s has %d outcomes" % (c, len(outs)))
+            if not _has_ref(rets[0].value):
+                self.const_cache[b.name] = rets[0].value
             return rets[0].value
+        segs = _path_segments(c)
+        if len(segs) >= 2 and _strip_generics(segs[-2]) in self.enums and segs[-1] in self.enums[_strip_generics(segs[-2])]:
+            ety = _strip_generics(segs[-2])
+            return En(ety, z3.IntVal(self.enums[ety][segs[-1]]), {segs[-1]: ()})
+        if len(segs) == 1 and ty_hint and _base_name(ty_hint) in self.enums and segs[0] in self.enums[_base_name(ty_hint)]:
+            ety = _base_name(ty_hint)
+            return En(ety, z3.IntVal(self.enums[ety][segs[0]]), {segs[0]: ()})
         fb = None
         try:
             fb = self.resolve(c)
@@ -704,13 +751,23 @@ class Exec:
                     if (ih and ih[0] == owner) or (len(bs) >= 3 and bs[-3] == owner):
                         c2.append(b)
                 cands = c2 or cands
+        if len(cands) > 1:
+            # longest common suffix of path segments wins (call sites carry a module prefix the definitions lack)
+            def common(b):
+                bs = _path_segments(b.name)
+                n = 0
+                while n < len(bs) and n < len(segs) and bs[-1 - n] == segs[-1 - n]:
+                    n += 1
+                return n
+            best = max(common(b) for b in cands)
+            cands = [b for b in cands if common(b) == best]
         if len(cands) == 1:
             return cands[0]
         if len(cands) > 1:
             ex = [b for b in cands if b.name == c]
             if len(ex) == 1:
                 return ex[0]
-            raise MirUnsupported("ambiguous constant %s: %s" % (c, [b.name for b in cands]))
+            raise MirUnsupported("ambiguous constant %s: %s" % (c, [b.name for b in cands][:6]))
         return None
 
     # ------------------------------------------------------------------ rvalues
@@ -844,10 +901,14 @@ class Exec:
             raise MirUnsupported("unknown enum variant %s::%s" % (base, variant))
         return d[variant]
 
-    def make_adt(self, st, frame, path, fields):
+    def make_adt(self, st, frame, path, fields, dest_ty=None):
         """`Path(args)`: tuple struct or enum variant constructor"""
         p = path.strip()
         segs = _path_segments(p)
+        if len(segs) == 1 and dest_ty:
+            ety = _base_name(dest_ty)
+            if ety in self.enums and segs[0] in self.enums[ety]:  # bare variant name (`Equal`, `Less`): the destination type tells the enum
+                return En(ety, z3.IntVal(self.enums[ety][segs[0]]), {segs[0]: tuple(fields)})
         # enum variant?  Enum::<..>::Variant  /  Enum::Variant
         if len(segs) >= 2 and _strip_generics(segs[-2]) in self.enums and segs[-1] in self.enums[_strip_generics(segs[-2])]:
             ety = _strip_generics(segs[-2])
@@ -901,10 +962,10 @@ class Exec:
             if rv.a == "array":
                 return Adt("array", None, [self.eval_operand(st, frame, o) for o in rv.c])
             if rv.a == "adt":
-                return self.make_adt(st, frame, rv.b, [self.eval_operand(st, frame, o) for o in rv.c])
+                return self.make_adt(st, frame, rv.b, [self.eval_operand(st, frame, o) for o in rv.c], dest_ty)
             if rv.a == "adt_named":
                 # field order in MIR pretty-printer follows declaration order
-                v = self.make_adt(st, frame, rv.b, [self.eval_operand(st, frame, o) for _, o in rv.c])
+                v = self.make_adt(st, frame, rv.b, [self.eval_operand(st, frame, o) for _, o in rv.c], dest_ty)
                 return v
         if k == "repeat":
             n = int(re.sub(r"[^0-9]", "", rv.b.split("_")[0]) or 0)
@@ -1110,14 +1171,9 @@ class Exec:
         loc, iv, p = locs[0]
 
         def gen():
-            # candidate range: length of the indexed sequence
-            base = Place(p.local, p.projs[:[i for i, q in enumerate(p.projs) if q[0] == "index" and q[1] == loc][0]])
-            seq = self.eval_place(st, frame, base)
-            n = len(self._seq_items(seq))
-            for kk in range(n):
-                for st2 in self.branch(st, iv.e == kk):
-                    st2.cells[(frame, loc)] = Sc(z3.IntVal(kk), iv.ty)
-                    yield st2
+            for st2, kk in self.enum_values(st, iv.e, limit=4096):
+                st2.cells[(frame, loc)] = Sc(z3.IntVal(kk), iv.ty)
+                yield st2
         return gen()
 
     def _place_type(self, body, place):
@@ -1163,11 +1219,23 @@ class Exec:
                         st2, v = item
                         yield Outcome("return", st2, value=v)
                 return
-        b = self.resolve(callee)
+        b = self.resolve(callee, getattr(caller, "crate", None))
         if b is not None:
             yield from self.run_body(st, b, args)
             return
         raise MirUnsupported("no MIR body and no model for callee `%s`%s" % (callee, " (called from %s)" % caller.name if caller else ""))
+
+
+def _has_ref(v):
+    if isinstance(v, Ref):
+        return True
+    if isinstance(v, Adt):
+        return any(_has_ref(f) for f in v.fields)
+    if isinstance(v, En):
+        return any(_has_ref(f) for fs in v.alts.values() for f in fs)
+    if isinstance(v, VecV):
+        return any(_has_ref(f) for f in v.items)
+    return False
 
 
 def _parse_op(s):
